@@ -116,6 +116,13 @@ def cNamesOut (E : Env) (C : Core) (nt : List Ident) (onlyVisible : Bool) (r : F
   | .notFound => (C, .names [])
   | .err e => (C, .err e)
 
+/-- the state `add_table` leaves behind: `nested_set(mapping, path, cols)`, `new_trie([parts], trie)`, eviction -/
+def setCore (C1 : Core) (path : Path) (ncols : Cols) (fc : List (CKey × Cols)) : Core :=
+  { C1 with
+    mapping := nestedSet C1.mapping path (.leaf ncols)
+    trie := trieInsert C1.trie path.reverse
+    findCache := fc }
+
 /-- the public methods on normalised arguments -/
 def coreStep (E : Env) (L : Layouts) (C : Core) : NOp → Core × Out
   | .addTable nt ncols =>
@@ -127,10 +134,7 @@ def coreStep (E : Env) (L : Layouts) (C : Core) : NOp → Core × Out
     | .err e => (r.1, .err e)                     -- an exception inside `find` propagates
     | fr =>
       if earlyReturn fr ncols then (r.1, .unit) else
-      let path := nt.map (·.name)
-      ({ r.1 with mapping := nestedSet r.1.mapping path (.leaf ncols),
-                  trie := trieInsert r.1.trie path.reverse,
-                  findCache := evict L.evict r.1.findCache nt }, .unit)
+      (setCore r.1 (nt.map (·.name)) ncols (evict L.evict r.1.findCache nt), .unit)
   | .columnNames nt ov =>
     let r := cFind E L C nt true false
     cNamesOut E r.1 nt ov r.2
@@ -274,6 +278,31 @@ def ctorLoop (E : Env) (L : Layouts) (raw : Tree) : NameCache × Tree → List (
     match ctorTable E L raw acc keys with
     | .ok acc' => ctorLoop E L raw acc' rest
     | .error e => .error e
+
+/-! #### the same constructor on the flat view (specification of `_normalize`, no cache) -/
+
+/-- `[_normalize_name(key, is_table=True) for key in keys]` -/
+def normKeys (E : Env) (keys : List Name) : Path :=
+  keys.map (fun k => nameCompute E.f ⟨k, false, E.self, true, true⟩)
+
+/-- `(_normalize_name(column_name), column_type)` for the columns of one raw table -/
+def normColPairs (E : Env) (cols : Cols) : List (Name × String) :=
+  cols.map (fun c => (nameCompute E.f ⟨c.1, false, E.self, false, true⟩, c.2))
+
+/-- one iteration of `for keys in flattened_schema`: the columns are set one by one INTO whatever the
+    normalised path already holds (two raw tables that normalise to the same path are merged) -/
+def ctorFlatStep (E : Env) (m : List (Path × Cols)) (kc : List Name × Cols) : List (Path × Cols) :=
+  dictSet m (normKeys E kc.1)
+    ((normColPairs E kc.2).foldl (fun cs c => dictSet cs c.1 c.2)
+      (match lookup m (normKeys E kc.1) with
+       | some c => c
+       | none => []))
+
+def ctorFlat (E : Env) (raw : List (List Name × Cols)) : List (Path × Cols) := raw.foldl (ctorFlatStep E) []
+
+/-- the `add_table(table, columns)` call that registers the same raw table on an existing schema -/
+def addOpOf (E : Env) (kc : List Name × Cols) : Op :=
+  .addTable E.self true (kc.1.map parseIdent) (kc.2.map (fun c => (parseIdent c.1, c.2)))
 
 /-- `MappingSchema(schema, dialect, normalize)` -/
 def fInit (E : Env) (L : Layouts) (raw : Tree) (normalize : Bool) : Except Err FSt :=
